@@ -6,7 +6,7 @@ import random
 from tierb import PRELUDE, EPILOGUE, Program
 
 
-def make_program(name, seed, nA, nB, nC, mode, nested_method, flavours):
+def make_program(name, seed, nA, nB, nC, mode, nested_method, flavours, marking="conditional"):
     """one method with virtual parameters (A, B[, C]); classes A_i, B_j derive from Root"""
     rng = random.Random(seed)
     sizes = [nA, nB] + ([nC] if nC else [])
@@ -67,7 +67,17 @@ def make_program(name, seed, nA, nB, nC, mode, nested_method, flavours):
     L.append("static int g_instantiated_fn_calls = 0;")
     L.append("template<typename Method, %s> struct impl { %s static int fn(%s) { ++g_instantiated_fn_calls; return %s; } };" %
              (tparams, "using method = Method;" if nested_method else "", fnparams, lin))
-    L.append("template<typename Method, %s> struct definition : std::conditional_t<DEFINED[%s] != 0, impl<Method, %s>, not_defined> {};" % (tparams, lin, targs))
+    if marking == "conditional" or mode not in ("all", "none", "row", "random", "most", "diagonal"):
+        L.append("template<typename Method, %s> struct definition : std::conditional_t<DEFINED[%s] != 0, impl<Method, %s>, not_defined> {};" % (tparams, lin, targs))
+    elif marking == "private-base":
+        # 'derives from not_defined' does not say publicly
+        L.append("struct empty_base {};")
+        L.append("template<typename Method, %s> struct definition : private std::conditional_t<DEFINED[%s] != 0, empty_base, not_defined>, impl<Method, %s> {};" % (tparams, lin, targs))
+    else:
+        # two mix-ins, each of which may derive from not_defined: a rejected combination can have
+        # not_defined twice among its bases
+        L.append("struct ok1 {}; struct ok2 {}; struct rej1 : not_defined {}; struct rej2 : not_defined {};")
+        L.append("template<typename Method, %s> struct definition : std::conditional_t<DEFINED[%s] != 0, ok1, rej1>, std::conditional_t<DEFINED[%s] != 0 || (T0::index %% 2 == 0), ok2, rej2>, impl<Method, %s> {};" % (tparams, lin, lin, targs))
     lists = ", ".join("types<%s>" % ", ".join("%s%d" % (letters[d], i) for i in range(sizes[d])) for d in range(arity))
     L.append("using P = product<types<M>, %s>;" % lists)
     L.append("static_assert(boost::mp11::mp_size<P>::value == %d, \"product size\");" % total)
@@ -124,7 +134,7 @@ def make_program(name, seed, nA, nB, nC, mode, nested_method, flavours):
     main.append("    long wrong = 0, wfirst = -1;")
     main.append(loops + "    " * (arity + 1) + "{ long k = %s; int r = M::fn(%s); ++g_checks; int want = DEFINED[k] ? (int)k : -1; if (r != want) { ++wrong; if (wfirst < 0) wfirst = k; } }" % (linexpr, callargs))
     main.append('    CHECK(wrong == 0, "C20:dispatch-through-registered-definitions-wrong", "%ld wrong results, first at product index %ld", wrong, wfirst);')
-    combo = "sizes=%s/defined=%d-of-%d/mode=%s/%s" % ("x".join(map(str, sizes)), ndefined, total, mode, "nested-method" if nested_method else "method-first-arg")
+    combo = "sizes=%s/defined=%d-of-%d/mode=%s/%s/marking=%s" % ("x".join(map(str, sizes)), ndefined, total, mode, "nested-method" if nested_method else "method-first-arg", marking)
     main.append('    printf("VFB-COMBO %s\\n");' % combo)
     src = PRELUDE + "\n".join(L) + "\n\n" + "\n".join(main) + EPILOGUE + "}\n"
     return Program(name, src, combos=[combo], flavours=flavours, timeout=900)
@@ -156,7 +166,7 @@ def programs(tier, seed):
     specs = []
     # small: 1-3 lists of length 1-8, every not_defined pattern
     modes = ["all", "none", "diagonal", "row", "random"]
-    for k in range(4 if tier == "quick" else 14):
+    for k in range(6 if tier == "quick" else 18):
         nA, nB = rng.randint(1, 8), rng.randint(1, 8)
         nC = rng.randint(1, 4) if rng.random() < 0.4 else 0
         specs.append((nA, nB, nC, modes[k % len(modes)], k % 2 == 0))
@@ -174,8 +184,10 @@ def programs(tier, seed):
         specs.append((41, 25, 0, "all", False))     # 1025: halves of 512 / 513
         specs.append((8, 8, 9, "random", True))     # 576 combinations, about half defined
         specs.append((9, 8, 8, "all", False))       # 576 defined, arity 3
+    markings = ["conditional", "two-mixins", "private-base"]
     for n, (nA, nB, nC, mode, nested) in enumerate(specs):
         big = nA * nB * max(nC, 1) > 400
+        marking = markings[n % 3] if not big else "conditional"
         out.append(make_program("c20-s%d-p%d" % (seed, n), seed * 100 + n, nA, nB, nC, mode, nested,
-                                ["clang-asan"] if not big or tier == "quick" else (["clang-asan"] if n % 2 else ["gcc-rel"])))
+                                ["clang-asan"] if not big or tier == "quick" else (["clang-asan"] if n % 2 else ["gcc-rel"]), marking))
     return out
